@@ -458,7 +458,39 @@ def rule_r8(chk, facts):
         raise AnalysisBroken('das.c: no appending copy into a code chunk found')
 
 
+def rule_r9(chk, facts):
+    chk.rule('C15-R9', 'disassembler opcode tables (6800, 4004): rows with the same operand class and mnemonic carry the same '
+             'control-flow column (does execution continue behind the instruction / at the operand): a return that is '
+             'marked as falling through for one operand value lets the tracer decode the data behind it as code',
+             min_instances=10)
+    n = 0
+    for un in ('deco4004.c', 'deco68.c'):
+        tab = deco_table(facts.unit(un))
+        groups = {}
+        for op, row in enumerate(tab):
+            if row is None or row[3] is None:
+                continue
+            groups.setdefault((row[0], row[3]), []).append((op, row[2]))
+        for (typ, memo), rows in sorted(groups.items(), key=str):
+            if len(rows) < 2:
+                continue
+            n += 1
+            vals = {}
+            for op, nx in rows:
+                vals.setdefault(nx, []).append(op)
+            ok = len(vals) == 1
+            if not ok:
+                minority = min(vals.items(), key=lambda kv: len(kv[1]))
+            chk.ob('C15-R9', '%s:%s:%s' % (un, memo, typ), ok, un, '%d rows agree' % len(rows) if ok else
+                   'opcode(s) %s of "%s" have next-address flags %s, the other %d rows of the same instruction %s: the tracer '
+                   'treats the same instruction differently depending on its operand value' % (
+                       ', '.join('$%02X' % o for o in minority[1]), memo, minority[0], len(rows) - len(minority[1]),
+                       sorted(k for k in vals if k != minority[0])))
+    return n
+
+
 def run(chk, facts, info):
+    rule_r9(chk, facts)
     rule_r8(chk, facts)
     rule_6800(chk, facts)
     rule_4004(chk, facts)
